@@ -24,8 +24,8 @@ func checkC05(c *Ctx, r *Report) {
 		if f == nil {
 			continue
 		}
-		set := callsIn(f, "Fragment.SetTrunDataOffsets", false)
-		opt := callsIn(f, "TrafBox.OptimizeTfhdTrun", false)
+		set := callsThrough(f, "Fragment.SetTrunDataOffsets", 2)
+		opt := callsThrough(f, "TrafBox.OptimizeTfhdTrun", 2)
 		var enc []ssa.CallInstruction
 		for _, n := range []string{"iface.Encode", "iface.EncodeSW"} {
 			enc = append(enc, callsIn(f, n, false)...)
@@ -33,7 +33,7 @@ func checkC05(c *Ctx, r *Report) {
 		key := "mp4." + m
 		switch {
 		case len(set) == 0:
-			r.Bad("O-ENC", key, c.Pos(f.Pos()), "SetTrunDataOffsets is never called: trun data offsets are not recomputed before encoding")
+			r.Bad("O-ENC", key, c.Pos(f.Pos()), "SetTrunDataOffsets is never called (directly or through a helper that always calls it): trun data offsets are not recomputed before encoding")
 		case len(enc) == 0:
 			r.Undecided("O-ENC", key, c.Pos(f.Pos()), "no child encode call found")
 		default:
@@ -50,16 +50,12 @@ func checkC05(c *Ctx, r *Report) {
 					r.Bad("O-ENC", key+":offsets-before-encode", c.Pos(e.Pos()), "a child is encoded on a path that has not passed SetTrunDataOffsets")
 				}
 			}
-			for _, o := range opt {
-				for _, s := range set {
-					if instrReaches(s, o) && !instrDominates(o, s) {
-						ok = false
-						r.Bad("O-ENC", key+":optimize-before-offsets", c.Pos(o.Pos()), "OptimizeTfhdTrun can run after SetTrunDataOffsets: the moof size used for the offsets is not the size written")
-					}
-				}
+			if bad, v := violatesOrder(f, "TrafBox.OptimizeTfhdTrun", "Fragment.SetTrunDataOffsets", 2); v {
+				ok = false
+				r.Bad("O-ENC", key+":optimize-before-offsets", c.Pos(bad.Pos()), "OptimizeTfhdTrun can run after SetTrunDataOffsets: the moof size used for the offsets is not the size written")
 			}
 			if ok {
-				r.OK("O-ENC", key, c.Pos(f.Pos()), fmt.Sprintf("SetTrunDataOffsets dominates all %d child encodes; OptimizeTfhdTrun (%d calls) precedes it", len(enc), len(opt)))
+				r.OK("O-ENC", key, c.Pos(f.Pos()), fmt.Sprintf("SetTrunDataOffsets dominates all %d child encodes; OptimizeTfhdTrun (%d call sites) precedes it", len(enc), len(opt)))
 			}
 		}
 	}
